@@ -52,6 +52,7 @@ type vecCase struct {
 	Exp  outcome         `json:"exp"`
 	Mod  outcome         `json:"mod"`
 	Sub  []subNode       `json:"sub"`
+	Wire outcome         `json:"wire"` // chain vectors: the model's serialized form
 	Emb  string          `json:"emb,omitempty"` // replay: restrict to one embedding
 	Raw  json.RawMessage `json:"-"`
 }
@@ -803,6 +804,9 @@ func handle(raw json.RawMessage) any {
 		}
 		if c.S == nil || c.Arg == nil {
 			return map[string]any{"harness_error": "vector without schema or argument"}
+		}
+		if c.Op == "chain" {
+			return runChain(&c)
 		}
 		return runVector(&c)
 	case "deep":
